@@ -66,6 +66,124 @@ def _balance(items, nbins):
 # ---------------------------------------------------------------------------
 def rsa_plan(q):
     """-> [(estimated cost in s, shard)]"""
+    return _rsa_plan_base(q) if q else rsa_plan_thorough()
+
+
+# thorough tier: which configurations get the complete alphabets (every bit of the signature, every bit of the encoded message,
+# all structured forgeries) per class of modulus size: A <= 1032 bits, B = 1536..2049 bits, C = 3072 and 4096 bits
+V15_FULL = {"A": ("sha256", "md5", "sha1", "sha224", "sha384", "sha512", "ripemd160", "sha3_256", "sha512_224", "blake2b_512"),
+            "B": ("sha256", "sha1", "sha512"), "C": ("sha256",)}
+V15_SIGFORGE_C = ("md5", "sha1", "sha512", "sha3_256", "sha512_224", "blake2b_512")
+PSS_FULL = {"A": (("sha256", None, None), ("sha256", None, 0), ("sha256", None, "max"), ("sha256", "sha1", None), ("sha1", "sha256", 0),
+                  ("sha1", None, None), ("sha512", None, None), ("sha512", None, "max"), ("sha3_256", None, 20)),
+            "B": (("sha256", None, None), ("sha256", None, "max"), ("sha1", "sha256", 0)), "C": (("sha256", None, None),)}
+PSS_CFGS = (("sha256", None, 0), ("sha256", None, 1), ("sha256", None, "max"), ("sha256", None, "max+1"),
+            ("sha256", None, 32), ("sha256", "sha1", None), ("sha1", "sha256", 0), ("sha1", None, None),
+            ("sha512", None, None), ("sha512", None, "max"), ("sha3_256", None, 20), ("md5", None, "max"))
+SWEEP_HASHES = {"A": ("sha256", "sha1", "sha512"), "B": ("sha256",), "C": ("sha256",)}
+EXTRA_MSGS = ["empty", "seeded150", "zeros64", "ff1"]
+
+
+def rsa_class(bits):
+    return "A" if bits <= 1032 else "B" if bits <= 2049 else "C"
+
+
+def rsa_keys_thorough():
+    return [RSA.keyname(b, e) for b, e in RSA.FIXT + RSA.GEN_T]
+
+
+def _rsa_cost(bits, scheme, cfg, what, nmsg=1):
+    """estimated CPU seconds of one shard (measured: 1.1 ms per candidate at 1024 bits, 4.8 ms at 2048 bits)"""
+    per = 0.0011 * (bits / 1024.0) ** 2.15
+    k = (bits + 7) // 8
+    n = 6
+    if "sig" in what:
+        n += 30
+    if "flips" in what:
+        n += 8 * k
+    if "forge" in what:
+        n += 70 + max(0, k - 60 if scheme == "v15" else k - 2 * 32)
+    if "emflips" in what:
+        n += 8 * k
+    return per * n * nmsg
+
+
+def rsa_plan_thorough():
+    """the thorough grid: everything the first version of the thorough tier contained (_rsa_plan_base(False)) plus the added
+    dimensions; one entry per (scheme, key, configuration, messages), the alphabets of all sources are united"""
+    grid = {}          # (scheme, key, cfg, messages) -> set of alphabets
+    order = []
+
+    def add(scheme, kn, cfg, mnames, what):
+        ident = (scheme, kn, cfg, tuple(mnames))
+        if ident not in grid:
+            grid[ident] = set()
+            order.append(ident)
+        grid[ident] |= set(what)
+    base = _rsa_plan_base(False)
+    other = {}
+    for _, sh in base:
+        add(sh[0], sh[1], sh[2] if sh[0] == "v15" else tuple(sh[2]), sh[3], sh[4])
+        other[sh[1]] = sh[5]
+    keys = rsa_keys_thorough()
+    for i, kn in enumerate(keys):
+        other[kn] = keys[(i + 1) % len(keys)]
+    full = ["sig", "flips", "forge", "emflips"]
+    for kn in keys:
+        bits = int(kn[3:].split("e")[0])
+        cl = rsa_class(bits)
+        # PKCS#1 v1.5: every hash signs and verifies on every key; signature-level candidates and forged encoded messages for
+        # every hash (class C: seven of them); the bit-flip alphabets for the hashes of V15_FULL; SHA-256 with all five messages
+        for hn in B.V15_HASHES:
+            if hn in V15_FULL[cl]:
+                add("v15", kn, hn, ["asc33"], full)
+            elif cl != "C" or hn in V15_SIGFORGE_C:
+                add("v15", kn, hn, ["asc33"], ["sig", "forge"])
+            else:
+                add("v15", kn, hn, ["asc33"], [])
+        for mn in EXTRA_MSGS:
+            add("v15", kn, "sha256", [mn], ["sig", "forge"])
+            add("pss", kn, ("sha256", None, None), [mn], ["sig", "forge"])
+        # PSS: the configurations of the first version on every key, the bit-flip alphabets for those of PSS_FULL
+        for cfg in PSS_CFGS:
+            add("pss", kn, cfg, ["asc33"], ["sig", "forge"])
+        for cfg in PSS_FULL[cl]:
+            add("pss", kn, cfg, ["asc33"], full)
+        for hn in B.PSS_HASHES:
+            if cl != "C":
+                add("pss", kn, (hn, None, None), ["asc33"], ["sig", "forge"])
+                add("pss", kn, (hn, None, "max"), ["asc33"], ["sig", "forge"])
+            else:
+                add("pss", kn, (hn, None, None), ["asc33"], ["sig"])
+                add("pss", kn, (hn, None, "max"), ["asc33"], ["forge"] if hn in ("sha1", "sha512", "sha3_512") else [])
+        # every salt length from 0 to the largest that fits and one more (the first that does not)
+        for hn in SWEEP_HASHES[cl]:
+            smax = (bits - 1 + 7) // 8 - B.hash_size(hn) - 2
+            for sl in range(0, smax + 2):
+                add("pss", kn, (hn, None, sl), ["asc33"], ["sig", "forge"] if (cl == "A" and hn == "sha256") else ["sig"] if cl != "C" else [])
+        # every ordered pair (message hash, MGF1 hash)
+        if cl != "C":
+            for hn in B.PSS_HASHES:
+                for mg in B.PSS_HASHES:
+                    if mg != hn:
+                        add("pss", kn, (hn, mg, None), ["asc33"], [])
+    plan = []
+    for ident in order:
+        scheme, kn, cfg, mnames = ident
+        what = [w for w in full if w in grid[ident]]
+        bits = RSA._KEYS[kn]["bits"] if RSA._KEYS and kn in RSA._KEYS else int(kn[3:].split("e")[0]) if kn[3:4].isdigit() else 512
+        cost = _rsa_cost(bits, scheme, cfg, what, len(mnames))
+        shard = (scheme, kn, cfg, list(mnames), what, other[kn])
+        nparts = int(cost / 6.0) + 1 if ("flips" in what or "emflips" in what) else 1
+        if nparts == 1:
+            plan.append((cost, shard))
+        else:
+            for part in range(nparts):
+                plan.append((cost / nparts, shard + ((part, nparts),)))
+    return plan
+
+
+def _rsa_plan_base(q):
     plan = []
     if q:
         keys = ["rsa1024e65537", "rsa1024e3", "rsa1025e65537", "rsa1031e3", "rsa1032e65537"]
